@@ -275,8 +275,8 @@ struct Space
       {
          Phase p;
          p.name = "actions_closed_with_vetoes";
-         p.root = { CORE_OPS, "ENABLE", "DISABLE", "ANY", "IF_APPLY" };
-         p.inner = { "ANY", "ONE_A", "EOF_", "SUCCESS", CORE_OPS, "ENABLE", "DISABLE", "IF_APPLY", "APPLY", "APPLY0" };
+         p.root = { CORE_OPS, "ENABLE", "DISABLE", "ANY", "IF_APPLY", "ACTION_SW" };
+         p.inner = { "ANY", "ONE_A", "EOF_", "SUCCESS", CORE_OPS, "ENABLE", "DISABLE", "IF_APPLY", "APPLY", "APPLY0", "ACTION_SW" };
          p.N = 3;
          p.L = thorough ? 3 : 2;
          p.sigma = "ab";
@@ -394,8 +394,8 @@ struct Space
       {
          Phase p;
          p.name = "state_action_control_scopes";
-         p.root = { CORE_OPS, "STATE", "ENABLE", "DISABLE" };
-         p.inner = { "ANY", "ONE_A", "EOF_", CORE_OPS, "STATE", "DISABLE" };
+         p.root = { CORE_OPS, "STATE", "ENABLE", "DISABLE", "CONTROL_SW" };
+         p.inner = { "ANY", "ONE_A", "EOF_", CORE_OPS, "STATE", "DISABLE", "CONTROL_SW" };
          p.N = thorough ? 4 : 4;
          p.L = thorough ? 3 : 2;
          p.sigma = "ab";
